@@ -102,7 +102,10 @@ SEQS = [
     (["remaining = self.policy.deadline - self.elapsed()", "remaining_s = remaining.total_seconds()"], "HBindRemaining", "remaining_s"),
     (["ctx = _build_backoff_context(attempt=attempt, classification=classification, prev_sleep_s=self.prev_sleep, "
       "remaining_s=remaining_s, cause=cause)", "sleep_s = strategy(ctx)"], "HCallStrategy", "sleep_s"),
-    (["if not math.isfinite(sleep_s):\n    sleep_s = 0.0", "sleep_s = max(0.0, sleep_s)", "sleep_s = min(sleep_s, remaining_s)"], "HSanitize", None),
+    # Runner.sanitize: NaN / infinities -> 0, then max(0, .) and min(., remaining).  isfinite() is asked inside a guard: for an int no
+    # float can hold it raises OverflowError, and such a value is finite (finding 7.20)
+    (["try:\n    finite = math.isfinite(sleep_s)\nexcept OverflowError:\n    finite = True", "if not finite:\n    sleep_s = 0.0",
+      "sleep_s = max(0.0, sleep_s)", "sleep_s = min(sleep_s, remaining_s)"], "HSanitize", None),
     (["self.prev_sleep = sleep_s"], "HSetPrev", None),
     (["self.emit(EventName.RETRY.value, attempt, sleep_s, klass, exc, cause=cause, classification=classification)",
       "return _RetryDecision('retry', sleep_s, ctx)"], "HRetry", None),
@@ -119,7 +122,7 @@ def block(stmts, bound):
         if isinstance(s, ast.Expr) and isinstance(s.value, ast.Constant) and isinstance(s.value.value, str):
             i += 1
             continue
-        if isinstance(s, ast.If) and not s.orelse and u(s.test) != "not math.isfinite(sleep_s)":
+        if isinstance(s, ast.If) and not s.orelse and u(s.test) != "not finite":
             c = cond(s.test, bound)
             st = stop_block(s.body)
             body = [st] if st is not None else block(s.body, bound)
